@@ -668,9 +668,9 @@ func c15(c *core.Ctx) {
 		"reference case = packet from the independent encoder in every attribute order (all permutations up to 5 attributes, sampled beyond) with and without non-zero reserved/padding octets, MAC by the reference, must be accepted; "+
 		"flip case = EVERY single-bit flip of packet and key must turn acceptance off (accept := decodes and Calc == carried AT_MAC); distinct = shape / order / noise")
 	c.Info("assumptions", "attribute types outside the seven settable ones are not generated || HMAC collisions do not occur")
-	c.Family("sender", c.N(60000, 2000000), c15Sender)
-	c.Family("reference-orders", c.N(40000, 1000000), c15Reference)
-	c.Family("bit-flips", c.N(200, 5000), c15Flips)
+	c.Family("sender", c.N(60000, 20000000), c15Sender)
+	c.Family("reference-orders", c.N(40000, 10000000), c15Reference)
+	c.Family("bit-flips", c.N(200, 40000), c15Flips)
 	c.Require("sender_receiver_agree", "reference_packets_accepted", "reference_packets_over_4k", "exhaustive_flip_packets", "flip_region_attr-padding", "flip_region_attr-reserved-or-bitlen",
 		"flip_region_mac-value", "flip_region_eap-header", "flip_region_aka-header", "flip_region_attr-type", "flip_region_attr-length", "flip_region_attr-value")
 }
